@@ -180,3 +180,11 @@ func verifLemmaRoundTripEthernet(eth *Ethernet, b gopacket.SerializeBuffer, df g
 //@ func decodeName(data []byte, offset int, buffer *[]byte, level int) ([]byte, dnsNameLabels, int, error)
 //@   props C19 C01
 //@   decreases 256 - level
+
+// The other two directly recursive decoders consume input on every recursive step.
+//@ func (t *TLS) decodeTLSRecords(data []byte, df gopacket.DecodeFeedback) error
+//@   props C19 C01
+//@   decreases len(data)
+//@ func decodeDiameterAVP(data []byte) (*AVP, error)
+//@   props C19 C01
+//@   decreases len(data)
